@@ -656,13 +656,21 @@ func runSlowAccept(c *Ctx) {
 		ns = append(ns, c.Budget(1300, 2600))
 	}
 	for _, n := range ns {
-		slowAccept(c, n)
+		// an expired budget alone says nothing: the scenario is run once more with a long one
+		f, expired := slowAccept(c, n, muxLongBudget)
+		if expired {
+			c.Count("mux-rerun-with-long-budget")
+			f, _ = slowAccept(c, n, 4*muxLongBudget)
+		}
+		if f != nil {
+			c.Find(*f)
+		}
 	}
 }
 
 // slowAccept: n connections (the first 1100 for the RTSP service, from 2600 on the next 1100
 // for the HTTP service, the rest mixed) are matched before any service accepts
-func slowAccept(c *Ctx, n int) {
+func slowAccept(c *Ctx, n int, budget time.Duration) (found *Finding, expired bool) {
 	root := &fakeRoot{ch: make(chan net.Conn), closed: make(chan struct{})}
 	l := listener.VerifNewFromListener(root)
 	l.SetReadTimeout(time.Hour)
@@ -685,10 +693,10 @@ func slowAccept(c *Ctx, n int) {
 	conns := make([]one, n)
 	want := map[string]int{}
 	fail := func(class, impl, spec string) {
-		c.Find(Finding{Kind: "oracle", Class: class, Case: fmt.Sprintf("c19 slowaccept %d", n), Impl: impl, Spec: spec,
-			Detail: "services that call Accept only after all connections have been matched; the line replays the whole scenario"})
+		found = &Finding{Kind: "oracle", Class: class, Case: fmt.Sprintf("c19 slowaccept %d", n), Impl: impl, Spec: spec,
+			Detail: "services that call Accept only after all connections have been matched; the line replays the whole scenario"}
 	}
-	deadline := time.After(muxLongBudget)
+	deadline := time.After(budget)
 	for i := range conns {
 		// first more RTSP connections than the RTSP service's queue (1024) holds, then a mix;
 		// thorough tier: the HTTP queue overflows too
@@ -704,6 +712,7 @@ func slowAccept(c *Ctx, n int) {
 		select {
 		case root.ch <- conns[i].fc:
 		case <-deadline:
+			expired = true
 			fail("connection-neither-delivered-nor-closed", fmt.Sprintf("Serve stopped accepting after %d connections while no service was accepting", i), "every connection is served")
 			return
 		}
@@ -714,6 +723,7 @@ func slowAccept(c *Ctx, n int) {
 		case <-conns[i].fc.cleared:
 		case <-conns[i].fc.closeCh:
 		case <-deadline:
+			expired = true
 			fail("connection-neither-delivered-nor-closed", fmt.Sprintf("connection %d (%q) was neither matched nor closed", i, conns[i].line), conns[i].want)
 			return
 		}
@@ -768,6 +778,7 @@ func slowAccept(c *Ctx, n int) {
 				}
 			}
 		case <-deadline:
+			expired = true
 			fail("not-exactly-one-service", fmt.Sprintf("only %d of %d matched connections came out of Accept", k, need), "every matched connection reaches its service")
 			return
 		}
@@ -791,6 +802,7 @@ func slowAccept(c *Ctx, n int) {
 			return
 		}
 	}
+	return
 }
 
 // ---------------------------------------------------------------- generators
